@@ -163,6 +163,59 @@ CANARIES = [
 ]
 
 
+def dt_worker(tier):
+    from .. import ufterm as U
+    from . import e4
+    from .C08 import _res
+    out = {"results": [], "error": ""}
+    try:
+        fns = U.real_functions()
+        for sc in e4.fine_dt_scenarios():
+            lab = sc.label()
+            o = e4.run_integrate(sc, fns)
+            if "exception" in o:
+                if o.get("engine_limit"):
+                    out["results"].append({"name": f"integrate:every step is taken with the caller's delta_t[{lab}]", "status": "unknown", "backend": "euf", "time_s": 0.0, "model": {}, "detail": "engine limit: " + o["exception"][:300]})
+                else:
+                    out["results"].append(_res(f"integrate:accepts the scenario[{lab}]", False, o["exception"]))
+                continue
+            ok, d = e4.recs_match(o["recs"], sc, e4.spec_for(sc))
+            out["results"].append(_res(f"integrate:t_max // dt + 1 columns, column k = k steps of the step function with exactly the caller's delta_t = {sc.dt} ms[{lab}]", ok, d))
+    except Exception as e:
+        out["error"] = f"{type(e).__name__}: {e}\n{traceback.format_exc(limit=8)}"
+    return out
+
+
+def native_dt():
+    """native replay: RC relaxation of a Leak compartment with dt = 0.00625 ms against the exact backward-Euler recursion"""
+    try:
+        import jax
+        jax.config.update("jax_enable_x64", True)
+        import jaxley as jx
+        from jaxley.channels import Leak
+        comp = jx.Compartment()
+        comp.insert(Leak())
+        comp.set("v", -50.0)
+        comp.record("v", verbose=False)
+        dt, t_max = 0.00625, 0.5
+        v = np.asarray(jx.integrate(comp, delta_t=dt, t_max=t_max))[0]
+        g, e, cm = float(comp.nodes.Leak_gLeak[0]), float(comp.nodes.Leak_eLeak[0]), float(comp.nodes.capacitance[0])
+        a = g * 1000.0 / cm * dt                    # S/cm2 -> mS/cm2 over uF/cm2 = 1/ms
+        want = [-50.0]
+        for _ in range(int(t_max // dt + 1) + 1):
+            want.append((want[-1] + a * e) / (1 + a))
+        n = min(len(v), len(want))
+        d = float(np.max(np.abs(np.asarray(want[:n]) - v[:n])))
+        return {"input": f"Leak compartment, dt = {dt} ms, t_max = {t_max} ms", "columns": int(len(v)), "expected_columns": len(want), "max_abs_difference_mV": d,
+                "reproduced": bool(d > 1e-9)}
+    except Exception as e:
+        return {"reproduced": False, "reason": f"{type(e).__name__}: {str(e)[:160]}"}
+
+
+def replay_dt(p):
+    return native_dt()
+
+
 def main(tier):
     ck = Check(PID, tier)
     outs = run_units("jxverif.props.C15", "worker", [(tier, None)] + [("quick", c) for c in CANARIES])
@@ -199,6 +252,21 @@ def main(tier):
             if not o[1]["reached"].get(f):
                 ck.error(f"contract target {f} was never executed")
             ck.add_function(f, "body discharged" if not ck.violations else "body NOT discharged", o[1]["reached"].get(f, 0))
+    # the one-step results above speak about Module.step(dt); that the k-th column of a simulation is k such steps with exactly
+    # the CALLER's delta_t (on a refinement ladder dt0 / 2^k the step leaves every decimal grid) is a contract of the real
+    # integrate, decided with the uninterpreted-step engine on time steps that are not multiples of 1e-4 ms (seeded change C15_f)
+    outs_dt = run_units("jxverif.props.C15", "dt_worker", [tier])
+    for o2 in outs_dt:
+        if o2[0] != "ok" or o2[1]["error"]:
+            ck.error(str(o2[1] if o2[0] != "ok" else o2[1]["error"])[:800])
+            continue
+        for r in o2[1]["results"]:
+            ck.add(r)
+            if r["status"] == "refuted":
+                rp = native_dt()
+                ck.violation(r["name"], {"solver": r["backend"], "solver_output": r["detail"], "kind": "c15", "replay_module": "jxverif.props.C15", "replay_fn": "replay_dt", "replay": rp},
+                             reproduced=rp.get("reproduced", False))
+        ck.add_function("jaxley.integrate.integrate (time axis: every step uses the caller's delta_t)", "body discharged" if not any(r["status"] == "refuted" for r in o2[1]["results"]) else "body NOT discharged", len(o2[1]["results"]))
     for can, oc in zip(CANARIES, outs[1:]):
         ref = oc[0] == "ok" and not oc[1]["error"] and any(r["status"] != "proved" for r in oc[1]["results"])
         ck.canary(f"{can[0]}: {can[2]!r} -> {can[3]!r}", ref, oc)
